@@ -34,6 +34,7 @@ type cutConn struct {
 	w          bytes.Buffer
 	closed     bool
 	oneAtATime bool
+	withErr    bool // the transport returns its last bytes together with the error / EOF
 }
 
 func (c *cutConn) Read(p []byte) (int, error) {
@@ -60,6 +61,13 @@ func (c *cutConn) Read(p []byte) (int, error) {
 	}
 	copy(p, c.data[c.pos:c.pos+n])
 	c.pos += n
+	if c.pos >= c.cutAt && c.withErr {
+		// io.Reader allows the last bytes and the error to come from the same call
+		if c.kind == "eof" {
+			return n, io.EOF
+		}
+		return n, errCut
+	}
 	return n, nil
 }
 func (c *cutConn) Write(p []byte) (int, error) {
@@ -238,7 +246,11 @@ func runPipeScenario(r *rand.Rand, kr *keyring, w *ndWriter, idx int) {
 			br = pipeBRec{T: "APP", Len: l}
 		case k < 9:
 			l := max(1, pipeLens[r.Intn(len(pipeLens))])
-			rec = rawRecord(r, []byte{22, 20, 21}[r.Intn(3)], 8, l)
+			typ, fb := []byte{22, 20, 21}[r.Intn(3)], byte(8)
+			if typ != 22 { // not a handshake record: its first byte means nothing to the Conn (a fatal alert starts with 2)
+				fb = []byte{1, 2, 2, 8}[r.Intn(4)]
+			}
+			rec = rawRecord(r, typ, fb, l)
 			br = pipeBRec{T: "HS", Len: l}
 		case i == nB-1 && r.Intn(2) == 0:
 			rec = []byte{22, 3, 3, 0, 5, 2, 0, 0, 1, 0}
@@ -259,7 +271,7 @@ func runPipeScenario(r *rand.Rand, kr *keyring, w *ndWriter, idx int) {
 	}
 	w.Write(Ev{"e": "reset", "scen": sc, "idx": idx})
 
-	tr := &cutConn{r: rand.New(rand.NewSource(r.Int63())), data: cstream, cutAt: sc.CutAt, kind: sc.CutKind, oneAtATime: r.Intn(6) == 0}
+	tr := &cutConn{r: rand.New(rand.NewSource(r.Int63())), data: cstream, cutAt: sc.CutAt, kind: sc.CutKind, oneAtATime: r.Intn(6) == 0, withErr: r.Intn(2) == 0}
 	var opts []ech.Option
 	opts = append(opts, ech.WithKeys(kr.serverKeys([]string{"K1"})))
 	crash := ""
